@@ -1,7 +1,7 @@
 CONSTANTS
- Q = 11
- P = 23
- GEN = 4
+ Q = 13
+ P = 53
+ GEN = 16
  DomH1 <- MC_DomH1
  DomH2 <- MC_DomH2
  DomH3 <- MC_DomH3
@@ -12,18 +12,19 @@ CONSTANTS
  DomHID <- MC_DomHID
  Shapes <- MC_Shapes
  IdSets <- MC_IdSets
- MaxExtra <- MC_MaxExtra
- Deltas <- MC_Deltas
- Kinds <- MC_Kinds
  KeyChoices <- MC_KeyChoices
  CoeffChoices <- MC_CoeffChoices
+ Procs <- MC_Procs
+ Scenarios <- MC_Scenarios
+ RCoeffChoices <- MC_RCoeffChoices
+ Rounds <- MC_Rounds
+ MaxExtra <- MC_MaxExtra
  RandChoices <- MC_RandChoices
- MsgA <- MC_MsgA
- MsgB <- MC_MsgB
- Modes <- MC_Modes
- MaxCheaters <- MC_MaxCheaters
+ Msg <- MC_Msg
+ KChoices <- MC_KChoices
+ Sweep <- MC_Sweep
  EMIT <- MC_EMIT
 INIT Init
 NEXT Next
 CHECK_DEADLOCK FALSE
-INVARIANTS InvAggregate InvVerifyShare InvReleased Emit
+INVARIANTS InvRelinked InvSameSecret InvRefreshOk InvSigning InvSigning2 InvVerify InvRejected Emit
